@@ -241,6 +241,29 @@ contract(AC + ".apply",
          },
          loops={"0": {"modifies": ALL_UPDATED}})
 
+def sent_props(cmd):
+    return cmd._properties
+
+
+def has_prop(cmd, pid):
+    return pid in cmd._properties
+
+
+contract(AC + ".apply#quiet_device",
+         params={"self": "obj:" + AC}, globals=G,
+         requires=["len(self._updated_properties) > 0"],
+         calls_inline=[AC + "._apply_properties"],
+         scenario={AC + "._send_command_get_responses": "len(result) == 0"},
+         modifies=["self._supported", "self._updated_properties", "Command._message_id"],
+         raises={},
+         post_let={"S": "events('sent')", "P": "events('sent')[1]._properties"},
+         ensures={
+             "one_property_write": "len(S) == 2 and isinstance(S[1], SetPropertiesCommand)",
+             "exactly_the_changed_ids_plus_buzzer": "all((pid in P) == (pid in old(self._updated_properties)) for pid in [PropertyId.BREEZE_AWAY, PropertyId.BREEZE_CONTROL, PropertyId.BREEZELESS, PropertyId.IECO, PropertyId.RATE_SELECT, PropertyId.SWING_LR_ANGLE, PropertyId.SWING_UD_ANGLE]) and PropertyId.BUZZER in P and PropertyId.SELF_CLEAN not in P",
+             "values_are_the_current_settings": "implies(PropertyId.BREEZE_CONTROL in P, P[PropertyId.BREEZE_CONTROL] == old(self._breeze_mode)) and implies(PropertyId.BREEZE_AWAY in P, P[PropertyId.BREEZE_AWAY] == (old(self._breeze_mode) == AirConditioner.BreezeMode.BREEZE_AWAY)) and implies(PropertyId.BREEZELESS in P, P[PropertyId.BREEZELESS] == (old(self._breeze_mode) == AirConditioner.BreezeMode.BREEZELESS)) and implies(PropertyId.IECO in P, P[PropertyId.IECO] == old(self._ieco)) and implies(PropertyId.RATE_SELECT in P, P[PropertyId.RATE_SELECT] == old(self._rate_select)) and implies(PropertyId.SWING_LR_ANGLE in P, P[PropertyId.SWING_LR_ANGLE] == old(self._horizontal_swing_angle)) and implies(PropertyId.SWING_UD_ANGLE in P, P[PropertyId.SWING_UD_ANGLE] == old(self._vertical_swing_angle)) and P[PropertyId.BUZZER] == old(self._beep_on)",
+             "changes_cleared": "len(self._updated_properties) == 0"},
+         notes="C16: with a device that sends nothing back during the exchange, the property write carries exactly the changed ids (plus the buzzer) with the current settings")
+
 contract(AC + "._apply_properties",
          params={"self": "obj:" + AC, "properties": "symdict:PROP_KEYS:enum:" + CMD + "PropertyId"}, globals=G,
          modifies=ALL_UPDATED + ["self._supported", "Command._message_id"],
